@@ -37,6 +37,7 @@ class FakeDevice:
     def __init__(self, S, firmware, script=None):
         self.S, self.fw = S, firmware
         self.script = script or {}
+        self.flow_control = bool(self.script.get("flow_control"))     # True = socket flavour
         self.force_dtr = None
         self.port = None
         self.baudrate = None
@@ -66,7 +67,7 @@ class FakeDevice:
 
     @property
     def has_flow_control(self):
-        return False
+        return self.flow_control
 
     def connect(self, port=None, baudrate=None):
         self.S.point("dev.connect", effect=True)
